@@ -267,6 +267,11 @@ impl<'a, T> AtomicArena<'a, T> {
         if let Some(curr) = NonNull::new(self.buckets[a as usize].load(Ordering::Acquire)) {
             curr
         } else {
+            #[cfg(isographlabs_isograph_verif)]
+            crate::verif::verif_point(
+                crate::verif::ARENA_NULL_BUCKET_BEFORE_LOCK
+                    | ((a as u32) << crate::verif::DETAIL_SHIFT),
+            );
             self.slice_for_slot_slow(a)
         }
     }
@@ -334,6 +339,10 @@ impl<'a, T> AtomicArena<'a, T> {
         assert!(s >= MIN_SIZE); // Panic on wraparound ( == overflow).
         let biased_index = NonZeroU32::new(s).unwrap(); // Succeeds after above check.
         let (a, b) = index(s);
+        #[cfg(isographlabs_isograph_verif)]
+        crate::verif::verif_point(
+            crate::verif::ARENA_AFTER_FETCH_ADD | ((a as u32) << crate::verif::DETAIL_SHIFT),
+        );
         let e_ptr = self.slice_for_slot(a).as_ptr();
         // This is checked in index_test with monotonicity checks
         // at boundaries.  Note that s and thus (a, b) are unique,
@@ -349,6 +358,10 @@ impl<'a, T> AtomicArena<'a, T> {
             *e_ptr = MaybeUninit::new(element);
         }
         let e: &T = unsafe { &*(&*e_ptr).as_ptr() };
+        #[cfg(isographlabs_isograph_verif)]
+        crate::verif::verif_point(
+            crate::verif::ARENA_AFTER_SLOT_WRITE | ((a as u32) << crate::verif::DETAIL_SHIFT),
+        );
         (
             Ref {
                 phantom: PhantomData,
